@@ -44,6 +44,12 @@ CLAIMED = {
  "C16": ("dominance of prepare/execute/global-store by the no-error edges of parse and compile (GATE), parameter-use check that compile clones its namespace (COMPILE-PURE), argument-provenance check over all compile callers (CHECK-AGREE)",
          "Structural necessary conditions: nothing is prepared, stored into the interpreter or executed unless both parsing and compilation succeeded; compilation mutates only a clone of the namespace; evaluation and the static check compile against the same builtin and namespace views. Equality of the reported error sets for all programs is not decided.",
          "trusts go/ssa"),
+ "C40": ("ownership pairing for opened descriptors (OPEN-OWNED), must-call rule for returned cleanup functions on all success paths (CLEANUP-CALLED), close-before-overwrite dominance (REPLACE-CLOSES), spawn/join pairing (JOINED)",
+         "Structural necessary conditions: every descriptor the evaluator opens is closed in place or recorded as owned by a form whose epilogue closes it; every cleanup function of a capture/pipe/file port is called or handed on on every path; a redirection closes the port it replaces; every goroutine is joined. Descriptor counts and the os.Pipe-failure path are not decided.",
+         "trusts go/ssa; audited: process-lifetime /dev/null handle and black-hole drain"),
+ "C42": ("constant evaluation of the open-flag table against the mode specification (FLAGS), taint-to-index check on the port table (FD-RANGE), guard check for self-duplication (DUP-SELF), ownership and close-before-overwrite rules (OPEN-OWNED, REPLACE-CLOSES), literal check for the closed port (SENDERR-NONNIL)",
+         "Structural necessary conditions: each redirection mode compiles to exactly its open(2) flags, evaluated fds are range-checked on both sides before indexing or growing the port table, n>&n does not reuse a port it just closed, files opened by a redirection are owned by the form, the replaced port is closed, and n>&- installs a port whose value output raises. Actual byte routing is not decided.",
+         "trusts go/ssa and go/constant; flag values are read from package os for the analysed platform (thorough tier: five platforms)"),
  "C39": ("lockset dataflow over SSA with boolean-correlated path sensitivity (EVALER-LOCK, PTRVAR-LOCK); guarded-field set derived from the struct declaration (GUARDED-SET); table-free write-under-read-lock contradiction rule (RLOCK-WRITE)",
          "Structural necessary condition, all paths of all functions: every access to the interpreter's mutex-guarded fields and every dereference of a PtrVar pointer happens with the right lock held; maps do not leave the critical section; locks are balanced. Freedom from races on other state and serialisability of results are not decided.",
          "trusts go/ssa; lock identity is by struct field, not by object (one Evaler per interpreter)"),
